@@ -241,7 +241,8 @@ fn panics_to_violations(o: &mut Outcome, stage: &str, detail: &str) -> usize {
 }
 
 fn short(s: &str) -> String {
-    let t: String = s.chars().take(600).collect();
+    let n = if std::env::var("C14_LONG").is_ok() { 6000 } else { 600 };
+    let t: String = s.chars().take(n).collect();
     t.replace('\n', "\\n")
 }
 
@@ -609,7 +610,7 @@ fn bomb_text(b: &BombCase) -> (String, &'static str) {
         (0, _) => (format!("{{ A {{ {} g : A }} }}", (0..d).map(|i| format!("f{} : [A] , ", i)).collect::<String>()), "model:fields"),
         // references that must exist: the generated SQL repeats the sub query (selection + EXISTS)
         (1, 0) => (format!("query {{ Person {{ {} id {} }} }}", "friends {".repeat(d), "}".repeat(d)), "query:sub-entities"),
-        (1, 1) => (format!("query {{ Person ({}) {{ id }} }}", "name = \"a\",".repeat(d)), "query:filters"),
+        (1, 1) => (format!("query {{ Person ({}) {{ id }} }}", "name = \"a\",".repeat(d.min(3000))), "query:filters"),
         (1, 2) => (format!("query {{ {} }}", (0..d.min(3000)).map(|i| format!("a{} : Person {{ id }} ", i)).collect::<String>()), "query:entities"),
         // nullable references: the generated SQL grows linearly with the depth
         (1, _) => (format!("query {{ Person {{ {} id {} }} }}", "pet { owner {".repeat(d / 2 + 1), "}}".repeat(d / 2 + 1)), "query:nullable-sub-entities"),
@@ -746,7 +747,7 @@ fn run_bomb(b: &BombCase, o: &mut Outcome) {
     } else {
         let overflow = stderr.contains("overflowed its stack");
         o.violation(
-            format!("crash:{}@bomb.{}", if overflow { "stack-overflow" } else { "abnormal-exit" }, shape),
+            format!("crash:{}@{}-parser", if overflow { "stack-overflow" } else { "abnormal-exit" }, shape.split(':').next().unwrap_or("?")),
             format!("the process parsing a {} byte text (nesting depth {}) ended with {:?}: {}", text.len(), b.depth, out.status, short(&stderr)),
         );
         o.nontrivial = true;
